@@ -42,7 +42,8 @@
    "defs": [
     "WITH_REM=1"
    ],
-   "tier": "thorough"
+   "tier": "parked",
+   "parked_reason": "timeout 600 s"
   }
  ],
  "native_replay": true,
